@@ -12,8 +12,8 @@ pub struct C01;
 
 fn sweeps(tier: Tier) -> Vec<Strings> {
     match tier {
-        Tier::Quick => vec![Strings::new(FRAGMENTS, 4)],
-        Tier::Thorough => vec![Strings::new(FRAGMENTS, 5), Strings::new(FRAGMENTS_SMALL, 6)],
+        Tier::Quick => vec![Strings::new(FRAGMENTS, 4), Strings::new(&fragments_wide(), 3)],
+        Tier::Thorough => vec![Strings::new(FRAGMENTS, 5), Strings::new(FRAGMENTS_SMALL, 6), Strings::new(&fragments_wide(), 4)],
     }
 }
 
@@ -147,11 +147,9 @@ impl Prop for C01 {
         Plan {
             stages,
             rule: format!(
-                "every string of <= L fragments (L={}, alphabet {} fragments covering every tokenizer class incl. 2/3/4-byte chars{}); \
+                "every string of <= L fragments for each of these (L, alphabet size) pairs: {} (the base alphabet covers every tokenizer class incl. 2/3/4-byte chars; the widest one adds one representative per standard-library character class: form feed, NEL, zero-width space, BOM, combining mark, NUL, non-ASCII digits and letters, ASCII punctuation the language does not use, the remaining operator characters and boolean spellings); \
                  plus {} recursive shapes at sizes 2^1..2^{}; a case is non-trivial if the model lexer yields >= 2 tokens, distinct = distinct token-kind sequence (ladder: distinct shape/size)",
-                sw[0].max_len,
-                sw[0].alphabet.len(),
-                if sw.len() > 1 { format!("; and L={} over a {}-fragment sub-alphabet", sw[1].max_len, sw[1].alphabet.len()) } else { String::new() },
+                sw.iter().map(|s| format!("(L={}, {} fragments)", s.max_len, s.alphabet.len())).collect::<Vec<_>>().join(", "),
                 SHAPES.len(),
                 tier.pick(17, 20)
             ),
